@@ -18,6 +18,11 @@ func init() {
 			"Not decided: the registered-before/still-registered clause for concurrent unsubscribers and the order of deliveries made through a Handler.",
 		Trusted: commonTrusted,
 		Run:     runC10,
+		Relies: []Dep{
+			{Prop: "C12", Rule: "R1", Keys: []string{"HandlerDef/"}, Floor: 2, Why: "SubscribeOn delivers through a Handler: one consumer goroutine"},
+			{Prop: "C12", Rule: "R2", Keys: []string{"HandlerDef/"}, Floor: 1, Why: "SubscribeOn delivers through a Handler: each posted function runs once, in order"},
+			{Prop: "C12", Rule: "R3", Keys: []string{"HandlerDef.Post"}, Floor: 1, Why: "SubscribeOn delivers through a Handler: Post enqueues exactly once"},
+		},
 	})
 }
 
